@@ -8,6 +8,7 @@
 import LccModel.Proto
 import LccModel.ProtoReport
 import LccModel.Model.RunAccept
+import LccModel.Model.RunOutcome
 import LccModel.Model.Writer
 import LccModel.Model.Grammar
 open Lean LccModel LccModel.Proto LccModel.ProtoReport LccModel.Report LccModel.Run LccModel.RunAccept
@@ -146,7 +147,10 @@ def decRec (j : Json) : Except String Rec := do
   | "receive" => pure (.receive (← a[1]!.getNat?) (← natList a[2]!))
   | "interrupt" => pure (.interrupt (← natList a[1]!))
   | "handled" => pure (.handled (← a[1]!.getNat?))
-  | "backend-raise" => pure (.backendRaise (← a[1]!.getNat?))
+  | "backend-raise" =>
+    -- third field (optional): the class name of what the handler raised
+    let cls := (a[2]? >>= fun j => j.getStr?.toOption).getD "Exception"
+    pure (.backendRaise (← a[1]!.getNat?) (LccModel.RunOutcome.FaultClass.ofName cls).isException)
   | "handler-exit" => pure .handlerExit
   | k => throw s!"unknown record {k}"
 
